@@ -76,6 +76,7 @@ def check_str_primitives(ctx, rid):
     loops = [s for s in f.node.body if isinstance(s, ast.For)]
     ok, detail = False, 'shape not recognised'
     stray = [y for s in f.node.body if not isinstance(s, ast.For) for y in yields_in(s)]
+    whiles = [s for s in f.node.body if isinstance(s, ast.While)]
     if len(loops) == 1 and not stray and is_attr(loops[0].iter, 'tokens', 'self') and isinstance(loops[0].target, ast.Name):
         tv = loops[0].target.id
         ok = True
@@ -95,10 +96,12 @@ def check_str_primitives(ctx, rid):
             if not good:
                 ok, detail = False, f'`{src(ys[0])}` under guards {[(e, p_) for e, p_ in facts if e != "|"]}'
                 break
+    elif len(whiles) == 1 and not loops:
+        ok, detail = _flatten_explicit_stack(f, whiles[0])
     elif len(loops) == 1:
         detail = f'loop is `for {src(loops[0].target)} in {src(loops[0].iter)}`' + (' and yields outside the loop' if stray else '')
     ctx.ob(rid, 'TokenList.flatten', _loc(f, f.node),
-           'flatten yields the children in list order, recursing exactly into groups', ok, detail)
+           'flatten yields the leaves depth first in list order, descending exactly into groups', ok, detail)
     f = repo.func(TOKEN + '.flatten')
     ys = yields_in(f.node)
     ok = len(ys) == 1 and isinstance(ys[0], ast.Yield) and is_name(ys[0].value, 'self')
@@ -120,6 +123,58 @@ def check_str_primitives(ctx, rid):
                                        and isinstance(v.values[1], ast.List) and not v.values[1].elts))
     ctx.ob(rid, 'TokenList.__init__', _loc(f, f.node),
            'a group keeps the list it is given and caches value = str(self) computed from its own children', ok, detail)
+
+
+def _flatten_explicit_stack(f, w):
+    """depth-first walk with an explicit stack of child iterators:
+         stack = [iter(self.tokens)]
+         while stack:
+             for t in stack[-1]:
+                 if t.is_group: stack.append(iter(t.tokens)); break
+                 yield t
+             else: stack.pop()
+    -- the same leaf order as the recursive definition (a group's children are exhausted before its next sibling)."""
+    init = [s for s in f.node.body if isinstance(s, ast.Assign) and len(s.targets) == 1 and isinstance(s.targets[0], ast.Name)
+            and is_name(w.test, s.targets[0].id)]
+    if len(init) != 1:
+        return False, 'the loop condition is not the truth of a stack initialised before the loop'
+    st = init[0].targets[0].id
+    v = init[0].value
+    if not (isinstance(v, ast.List) and len(v.elts) == 1 and isinstance(v.elts[0], ast.Call) and is_name(v.elts[0].func, 'iter')
+            and len(v.elts[0].args) == 1 and is_attr(v.elts[0].args[0], 'tokens', 'self')):
+        return False, f'stack is initialised with `{src(v)}`, not [iter(self.tokens)]'
+    if [y for s in f.node.body if s is not w for y in yields_in(s)]:
+        return False, 'yield outside the walk loop'
+    if not (len(w.body) == 1 and isinstance(w.body[0], ast.For) and not w.orelse):
+        return False, 'the walk loop body is not a single for-else over the top iterator'
+    lp = w.body[0]
+    top = lp.iter
+    if not (isinstance(top, ast.Subscript) and is_name(top.value, st) and src(top.slice) == '-1' and isinstance(lp.target, ast.Name)):
+        return False, f'inner loop iterates `{src(top)}`, not {st}[-1]'
+    tv = lp.target.id
+    els = lp.orelse
+    if not (len(els) == 1 and isinstance(els[0], ast.Expr) and isinstance(els[0].value, ast.Call) and is_attr(els[0].value.func, 'pop', st)
+            and not els[0].value.args):
+        return False, f'an exhausted iterator is not popped (`{"; ".join(src(s) for s in els)}`)'
+    for p in enum_paths(lp.body):
+        ys = [s for s in p.stmts() if isinstance(s, ast.Expr) and isinstance(s.value, (ast.Yield, ast.YieldFrom))]
+        facts = p.facts()
+        grp = fact_in((f'{tv}.is_group', True), facts)
+        ngrp = fact_in((f'{tv}.is_group', False), facts)
+        pushes = [s for s in p.stmts() if isinstance(s, ast.Expr) and isinstance(s.value, ast.Call) and is_attr(s.value.func, 'append', st)]
+        if grp:
+            good = not ys and p.exit == 'break' and len(pushes) == 1 and len(pushes[0].value.args) == 1 \
+                and isinstance(pushes[0].value.args[0], ast.Call) and is_name(pushes[0].value.args[0].func, 'iter') \
+                and is_attr(pushes[0].value.args[0].args[0], 'tokens', tv)
+            if not good:
+                return False, f'group path: {len(ys)} yields, {len(pushes)} pushes, exit {p.exit}: a group is not entered exactly once before its siblings'
+        elif ngrp:
+            good = len(ys) == 1 and isinstance(ys[0].value, ast.Yield) and is_name(ys[0].value.value, tv) and not pushes and p.exit in ('fall', 'continue')
+            if not good:
+                return False, f'leaf path: {len(ys)} yields, exit {p.exit}: a leaf is skipped or repeated'
+        else:
+            return False, 'a path through the walk does not test is_group'
+    return True, 'explicit-stack depth-first walk'
 
 
 # ---------------------------------------------------------------------------
